@@ -562,7 +562,7 @@ def m_slice_iter(ex, st, callee, args, dty, m):
     return NotImplemented
 
 
-@model(r"<(?:std|core)::slice::Iter<'_, .*> as Iterator>::next$|<(?:std::)?vec::IntoIter<.*> as Iterator>::next$")
+@model(r"<(?:std|core)::slice::Iter<'_, .*> as Iterator>::next$|<(?:std::)?vec::IntoIter<.*> as Iterator>::next$|<(?:std::collections::)?hash_map::(?:Values|Keys)<'_, .*> as Iterator>::next$")
 def m_slice_iter_next(ex, st, callee, args, dty, m):
     it = deref(ex, args[0])
     if not (isinstance(it, Agg) and it.name == "SeqIter"):
@@ -1312,6 +1312,22 @@ def m_deque_push_back(ex, st, callee, args, dty, m):
         v.items.append(args[1])
         return UNIT
     return NotImplemented
+
+
+@model(MAP_RE + r"::(values|keys)$")
+def m_map_values(ex, st, callee, args, dty, m):
+    mv = as_map(ex, args[0])
+    if mv.entries is None:
+        return NotImplemented
+    items = []
+    for e in mv.entries:
+        if not z3.is_true(z3.simplify(e[0])):
+            raise Unsupported("iteration over a map with conditionally present entries")
+        if m.group(m.lastindex) == "keys":
+            items.append(e[1])
+        else:
+            items.append(e[2].v if isinstance(e[2], Cell) else e[2])
+    return Agg("struct", "SeqIter", [Ref(Cell(Seq(items)), ()), u64(0)])
 
 
 @model(MAP_RE + r"::(iter_mut|iter)$|<&(?:mut )?(?:std::collections::|ahash::)?A?HashMap<.*> as IntoIterator>::into_iter$")
